@@ -28,7 +28,7 @@ Print Assumptions C16_sizeof_values.
    success, the contribution is element 0.. of the receive buffer, nothing else changes.
    Full-strength statement = this one without `contiguous_ok`; it is refuted below (F-C16b). *)
 Theorem C16_gather : forall send recv np t nq tq,
-  valid_dt t -> 0 <= np -> contiguous_ok t np 0 ->
+  valid_dt t -> 0 <= np < 2 ^ 31 -> contiguous_ok t np 0 ->
   np * extent t <= len send -> np * extent t <= len recv ->
   exists r', sc_gather send np t recv nq tq = (SUCCESS, Some r') /\ coll_ok t np 0 send recv r'.
 Proof. exact gather_spec. Qed.
@@ -40,7 +40,7 @@ Print Assumptions C16_allgather_alltoall.
 
 (* Gatherv / Allgatherv: every displacement >= 0 *)
 Theorem C16_gatherv : forall send recv np t displ,
-  valid_dt t -> 0 <= np -> 0 <= displ -> contiguous_ok t np displ ->
+  valid_dt t -> 0 <= np < 2 ^ 31 -> 0 <= displ < 2 ^ 31 -> contiguous_ok t np displ ->
   np * extent t <= len send -> (displ + np) * extent t <= len recv ->
   exists r', sc_gatherv send np t recv np displ t = (SUCCESS, Some r') /\ coll_ok t np displ send recv r'.
 Proof. exact gatherv_spec. Qed.
@@ -49,7 +49,7 @@ Print Assumptions C16_gatherv.
 (* Reduce / Allreduce / Reduce_scatter_block / Scan: with one operand the result is the operand, for
    every operation `op` *)
 Theorem C16_reduce : forall send recv n t op,
-  valid_dt t -> 0 <= n -> contiguous_ok t n 0 ->
+  valid_dt t -> 0 <= n < 2 ^ 31 -> contiguous_ok t n 0 ->
   n * extent t <= len send -> n * extent t <= len recv ->
   exists r', sc_reduce send recv n t op = (SUCCESS, Some r') /\ coll_ok t n 0 send recv r'.
 Proof. exact reduce_spec. Qed.
@@ -77,8 +77,8 @@ Print Assumptions C16_double_int_refuted.
 (* Pack: succeeds iff position + count * size <= outsize; then the elements' data bytes are laid out at
    *position and *position advances by count * size; otherwise nothing changes.  No copy leaves a buffer. *)
 Theorem C16_pack : forall inbuf incount t outbuf outsize pos,
-  valid_dt t -> 0 <= incount -> incount * type_size t < 2 ^ 31 -> contiguous_ok t incount 0 ->
-  incount * extent t <= len inbuf -> len outbuf = outsize -> 0 <= pos ->
+  valid_dt t -> 0 <= incount -> contiguous_ok t incount 0 ->
+  incount * extent t <= len inbuf -> len outbuf = outsize -> 0 <= pos -> pos + incount * type_size t < 2 ^ 31 ->
   let '(rc, out', pos') := sc_pack inbuf incount t outbuf outsize pos in
   (rc = SUCCESS <-> pos + incount * type_size t <= outsize) /\
   (rc <> SUCCESS -> out' = Some outbuf /\ pos' = pos) /\
@@ -87,8 +87,8 @@ Proof. exact pack_spec. Qed.
 Print Assumptions C16_pack.
 
 Theorem C16_unpack : forall inbuf insize pos outbuf outcount t,
-  valid_dt t -> 0 <= outcount -> outcount * type_size t < 2 ^ 31 -> contiguous_ok t outcount 0 ->
-  len inbuf = insize -> outcount * extent t <= len outbuf -> 0 <= pos ->
+  valid_dt t -> 0 <= outcount -> contiguous_ok t outcount 0 ->
+  len inbuf = insize -> outcount * extent t <= len outbuf -> 0 <= pos -> pos + outcount * type_size t < 2 ^ 31 ->
   let '(rc, out', pos') := sc_unpack inbuf insize pos outbuf outcount t in
   (rc = SUCCESS <-> pos + outcount * type_size t <= insize) /\
   (rc <> SUCCESS -> out' = Some outbuf /\ pos' = pos) /\
